@@ -198,7 +198,22 @@ impl StoreRig {
     pub fn deliver(&mut self) -> bool {
         let Some(cmd) = self.queue.pop_front() else { return false };
         match cmd {
-            LocalSwarmCmd::AddLocalRecordAsStored { key, record_type } => self.store.verif_mark_as_stored(key, record_type),
+            LocalSwarmCmd::AddLocalRecordAsStored { key, record_type } => {
+                // under the spawn capture like every other call into the store: whatever the acknowledgement handling
+                // starts in the background (today nothing) becomes a task of the key whose file it touches
+                let evicted = self.store.get_farthest();
+                let tag = hexkey(&key);
+                let store = &mut self.store;
+                let (_, ids) = self.exec.capture(None, &tag, || store.verif_mark_as_stored(key, record_type));
+                for id in ids {
+                    if self.exec.info(id).func.ends_with("::remove") {
+                        // a delete task names no key: it belongs to the key itself or to the record the store called its farthest
+                        let still_listed = self.store.verif_contains(&RecordKey::new(&hex::decode(&tag).unwrap_or_default()));
+                        let t = if still_listed { evicted.as_ref().map(hexkey).unwrap_or_else(|| tag.clone()) } else { tag.clone() };
+                        self.exec.set_tag(id, &t);
+                    }
+                }
+            }
             LocalSwarmCmd::RemoveFailedLocalRecord { key } => self.remove(&key),
             other => panic!("unexpected cmd from the store: {other:?}"),
         }
